@@ -264,6 +264,14 @@ func (n *AbsfsNFS) Close() error {
 		n.workerPool.Stop()
 	}
 
+	// A request that was still executing when Stop gave up waiting (it waits
+	// at most 5 s) holds the policy read lock until its work is done. Wait
+	// for it, as a policy update does, so that nothing allocates a handle or
+	// fills a cache after the clean-up below; requests that arrive later are
+	// refused (see HandleCall).
+	n.policyRWMu.Lock()
+	n.closed = true
+
 	// Release all file handles to prevent file descriptor leaks
 	if n.fileMap != nil {
 		n.fileMap.ReleaseAll()
@@ -277,6 +285,8 @@ func (n *AbsfsNFS) Close() error {
 	if n.dirCache != nil {
 		n.dirCache.Clear()
 	}
+
+	n.policyRWMu.Unlock()
 
 	// Close structured logger if it's a SlogLogger
 	n.loggerMu.Lock()
